@@ -133,6 +133,36 @@ def run_rules(repo, rule_names, tier, scratch):
     return analyse_paths(paths, rule_names)
 
 
+def run_witnesses(rule_names, scratch):
+    """Rules with a WITNESS file must fire on its positive_* functions and stay silent on negative_*.
+    Returns (summary, broken list)."""
+    summary, broken = {}, []
+    wroot = os.path.join(HERE, 'witness') + '/'
+    for rn in rule_names:
+        mod = rules.get(rn)
+        w = getattr(mod, 'WITNESS', None)
+        if not w:
+            continue
+        src = os.path.join(wroot, w)
+        out = os.path.join(scratch, 'witness-%s.json' % rn)
+        r = subprocess.run([VLINT, '--root=' + wroot, '--out=' + out, src, '--', '-std=c++11', '-DNDEBUG', '-I/repo/include', '-I/repo/src'],
+                           stdout=subprocess.PIPE, stderr=subprocess.PIPE, text=True)
+        if r.returncode != 0 or not os.path.exists(out):
+            broken.append('%s: witness %s does not parse: %s' % (rn, w, r.stderr[-300:]))
+            continue
+        u = vfacts.Unit(out)
+        em = rules.Emitter(rn, u)
+        mod.run(u, em)
+        pos = [x for x in em.records if x['kind'] == 'violation' and 'positive' in x['func']]
+        neg = [x for x in em.records if x['kind'] == 'violation' and 'negative' in x['func']]
+        summary[rn] = {'witness': w, 'positive_reports': len(pos), 'negative_reports': len(neg)}
+        if not pos:
+            broken.append('%s: does not fire on its positive witness %s' % (rn, w))
+        if neg:
+            broken.append('%s: fires on its negative witness %s (%s)' % (rn, w, neg[0]['construct']))
+    return summary, broken
+
+
 def analyse_paths(paths, rule_names):
     records, stats = [], []
     with cf.ProcessPoolExecutor(NPROC) as ex:
@@ -367,9 +397,14 @@ def main():
         records, stats = run_rules(a.root, rule_names, tier, scratch)
         sites = merge(records)
         selftest, extra_broken = None, []
+        wsum, wbroken = run_witnesses(rule_names, scratch)
+        extra_broken += wbroken
         if tier == 'thorough':
             import selftest as st
-            selftest, extra_broken = st.run(rule_names, scratch)
+            selftest, sbroken = st.run(rule_names, scratch)
+            extra_broken += sbroken
+        if wsum:
+            selftest = dict(selftest or {}, witnesses=wsum)
         return decide(prop, rule_names, sites, stats, tier, t0, selftest, extra_broken)
     except Broken as e:
         log('ANALYSIS-BROKEN %s' % e)
